@@ -334,4 +334,8 @@ def check(ctx, R):
     R.run("C12.g", rule_g, ctx)
     from . import c04 as _c04
     R.run("C12.h", lambda R, c: _c04.rule_e(R, c, "C12.h"), ctx)
+    from . import scans
+    R.run("C12.i", lambda R, c: scans.loop_scans(R, c, "C12.i", ["yrs::undo::UndoStack::is_deleted"]), ctx)
+    R.run("C12.j", lambda R, c: scans.chain_scan(R, c, "C12.j"), ctx)
+    R.run("C12.k", lambda R, c: scans.adaptor_scans(R, c, "C12.k"), ctx)
     return {}
